@@ -157,6 +157,11 @@ func init() {
 						r.ca[1].Reset()
 					})
 				}
+				if c.P("senterr", "0") == "1" {
+					// connection 0's next write reaches the peer but reports an error (the session is torn down
+					// as for any write error); whatever is still sent afterwards must not repeat its number
+					r.ca[0].SentButFailed = 1
+				}
 				wg.Wait()
 				quiesce()
 				if c.P("seshclose", "0") == "1" {
@@ -188,7 +193,7 @@ func init() {
 					per[f.StreamID] = append(per[f.StreamID], f)
 				}
 				// (2) per stream: numbers 0..k-1 without gaps, unless a send failed (then a number may be burnt)
-				sendFailed := failconn
+				sendFailed := failconn || c.P("senterr", "0") == "1"
 				for id, fs := range per {
 					sort.Slice(fs, func(i, j int) bool { return fs[i].Seq < fs[j].Seq })
 					for i, f := range fs {
@@ -269,6 +274,8 @@ func init() {
 			{Scenario: "mux.seq", Params: vx.P("ops", "w257,c", "mem", "0"), Bound: b(2, 3), Weight: 6},
 			{Scenario: "mux.seq", Params: vx.P("ops", "w1", "mem", "0", "seshclose", "1", "second", "1", "conns", "1"), Bound: b(1, 2), Weight: 5},
 			{Scenario: "mux.seq", Params: vx.P("ops", "w1", "mem", "0", "seshclose", "1", "conns", "3", "delay", "1"), Bound: b(1, 2), Weight: 5},
+			{Scenario: "mux.seq", Params: vx.P("ops", "w5+5,w5,c", "mem", "0", "senterr", "1", "failconn", "1", "delay", "1"), Bound: b(2, 3), Weight: 8},
+			{Scenario: "mux.seq", Params: vx.P("ops", "w5+5+5,c", "mem", "0", "senterr", "1", "conns", "1"), Bound: b(2, 3), Weight: 6},
 			{Scenario: "mux.lateframe", Bound: b(1, 2), Weight: 3},
 			{Scenario: "mux.lateframe", Params: vx.P("cycles", "4200", "targets", map[bool]string{true: "few", false: "all"}[q]), Bound: 0, Weight: 9},
 			{Scenario: "mux.seq", Params: vx.P("ops", "w1", "openers", "3", "conns", "1", "mem", "0"), Bound: b(1, 2), Weight: 6},
